@@ -125,6 +125,34 @@ fn check_swu(c: &SwuCase, info: &mut Info) -> Result<(), String> {
     Ok(())
 }
 
+/// t, -t, t, ... and another t' evaluated back to back
+#[derive(Clone, Debug, Serialize, Deserialize, PartialEq, Eq, Hash)]
+pub struct SwuSeq {
+    pub group: u8,
+    pub t: URecipe,
+    pub other: URecipe,
+    pub pattern: Vec<u8>,
+}
+
+fn swu_seq_strategy() -> BoxedStrategy<SwuSeq> {
+    (0u8..2, t_strategy(), t_strategy(), proptest::collection::vec(0u8..4, 2..6)).prop_map(|(group, t, other, pattern)| SwuSeq { group, t, other, pattern }).boxed()
+}
+
+fn check_swu_seq(c: &SwuSeq, info: &mut Info) -> Result<(), String> {
+    for (i, p) in c.pattern.iter().enumerate() {
+        let case = match p % 4 {
+            0 => SwuCase { group: c.group, t: c.t.clone(), negate: false },
+            1 => SwuCase { group: c.group, t: c.t.clone(), negate: true },
+            2 => SwuCase { group: c.group, t: c.other.clone(), negate: false },
+            _ => SwuCase { group: 1 - c.group % 2, t: c.t.clone(), negate: false },
+        };
+        let mut tmp = Info::default();
+        check_swu(&case, &mut tmp).map_err(|m| format!("call #{} of a sequence on related inputs: {}", i, m))?;
+    }
+    info.nt();
+    Ok(())
+}
+
 // ---- the two addition chains -------------------------------------------------------------------
 
 #[derive(Clone, Debug, Serialize, Deserialize, PartialEq, Eq, Hash)]
@@ -199,6 +227,7 @@ pub fn def() -> PropDef {
         subs: vec![
             Box::new(Sub { name: "g1-sswu", rule: "G1 osswu_map vs RFC map_to_curve_simple_swu (Z = 11)", quick: 18_000, thorough: 100_000, strategy: || boxed(swu_case_strategy(0)), check: check_swu }),
             Box::new(Sub { name: "g2-sswu", rule: "G2 osswu_map vs RFC map_to_curve_simple_swu (Z = -(2+I)), 16 branch cells measured", quick: 9_000, thorough: 50_000, strategy: || boxed(swu_case_strategy(1)), check: check_swu }),
+            Box::new(Sub { name: "related-sequences", rule: "2..5 calls back to back on t, -t, another t', the other group: each compared with the model", quick: 1_500, thorough: 40_000, strategy: || boxed(swu_seq_strategy()), check: check_swu_seq }),
             Box::new(Sub { name: "chains", rule: "chain_pm3div4(a) = a^((q-3)/4), chain_p2m9div16(a) = a^((q^2-9)/16)", quick: 9_000, thorough: 50_000, strategy: || boxed(chain_strategy()), check: check_chain }),
             Box::new(EnumSub { name: "constants-diagnostic", rule: "hook constants (A', B', Z) compared with the RFC values: recorded only", run: run_consts, replay: replay_consts, exhaustive: true }),
         ],
